@@ -99,8 +99,8 @@ def wire_of(t, v, hdr=1):
     k = t[0]
     if k == 'u': return v.to_bytes(t[1], 'little')
     if k == 'i': return (v % (1 << (8 * t[1]))).to_bytes(t[1], 'little')
-    if k == 'f32': return struct.pack('<I', v[1])
-    if k == 'f64': return struct.pack('<Q', v[1])
+    if k == 'f32': return struct.pack('<f', v) if isinstance(v, (int, float)) else struct.pack('<I', v[1])
+    if k == 'f64': return struct.pack('<d', v) if isinstance(v, (int, float)) else struct.pack('<Q', v[1])
     if k == 'vec': return b''.join(struct.pack('<I', b) for b in v[1])
     if k in ('string', 'blob', 'python'): return packed(len(v[1])) + v[1]
     if k == 'mailbox': return v[1] + struct.pack('>H', v[2])
